@@ -35,7 +35,7 @@ REACHABLE_RAISES = {
 }
 
 
-LATER_RULES = " Later rules: (R4.i) keyless orderings of tuples that can hold None; (R4.j) operations on other modules for import tracing sit in handlers; (R4.k) constant-index access to regex match lists; (R4.l) contradiction rule for snippet parses; (R4.m) validity oracles are total (SyntaxError, ValueError, RecursionError, MemoryError); (R4.n) program text handed to sympy's parser is fenced for Exception; (R4.o) loosely annotated options are normalised before set algebra; (R4.p) = C17 R17.9; (R4.q) constant-index access to possibly-empty list fields is justified by path facts, the selecting template (sa/shapes.py) or the grammar, three-valued; (R4.r) contradiction rule for computed indexes; (R4.s) operator fields of constructed nodes have the right category; (R4.t) unbound set methods are not applied to frozensets; (R4.u) no call on the tracing path executes code of the analysed project (find_spec of dotted names, import_module outside the standard library); (R4.v) format_code is fenced against the depth of the syntax tree (RecursionError hands the input back)."
+LATER_RULES = " Later rules: (R4.i) keyless orderings of tuples that can hold None; (R4.j) operations on other modules for import tracing sit in handlers; (R4.k) constant-index access to regex match lists; (R4.l) contradiction rule for snippet parses; (R4.m) validity oracles are total (SyntaxError, ValueError, RecursionError, MemoryError); (R4.n) program text handed to sympy's parser is fenced for Exception; (R4.o) loosely annotated options are normalised before set algebra; (R4.p) = C17 R17.9; (R4.q) constant-index access to possibly-empty list fields is justified by path facts, the selecting template (sa/shapes.py) or the grammar, three-valued; (R4.r) contradiction rule for computed indexes; (R4.s) operator fields of constructed nodes have the right category; (R4.t) unbound set methods are not applied to frozensets; (R4.u) no call on the tracing path executes code of the analysed project (find_spec of dotted names, import_module outside the standard library); (R4.v) format_code is fenced against the depth of the syntax tree (RecursionError hands the input back); (R4.w) a cut byte string is decoded with an errors policy that cannot raise."
 
 
 def check(prog: Program, tier: str) -> Result:
@@ -78,6 +78,7 @@ def check(prog: Program, tier: str) -> Result:
     _r4_j(prog, res)
     _r4_u(prog, res)
     _r4_v(prog, res)
+    _r4_w(prog, res)
     _r4_k(prog, res)
     _r4_l(prog, res)
     _r4_m(prog, res)
@@ -93,7 +94,7 @@ def check(prog: Program, tier: str) -> Result:
     _tmp = Result("C17", "", "")
     _c17._r17_9(prog, _tmp)
     res.adopt(_tmp, {"R17.9"}, "R4.p", "an unpinned constant can be a str or None: the operation raises TypeError out of the rule and out of format_code")
-    res.floors.update({"R4.v": 1, "R4.u": 2, "R4.t": 1, "R4.s": 20, "R4.r": 1, "R4.q": 30, "R4.p": 3, "R4.o": 2, "R4.n": 2, "R4.m": 2, "R4.a": 25, "R4.b": 200, "R4.c": 4, "R4.d": 18, "R4.e": 8, "R4.f": 40, "R4.h": 2, "R4.i": 2, "R4.j": 5, "R4.k": 1})
+    res.floors.update({"R4.w": 1, "R4.v": 1, "R4.u": 2, "R4.t": 1, "R4.s": 20, "R4.r": 1, "R4.q": 30, "R4.p": 3, "R4.o": 2, "R4.n": 2, "R4.m": 2, "R4.a": 25, "R4.b": 200, "R4.c": 4, "R4.d": 18, "R4.e": 8, "R4.f": 40, "R4.h": 2, "R4.i": 2, "R4.j": 5, "R4.k": 1})
     return res
 
 
@@ -1547,6 +1548,38 @@ def _r4_g(prog: Program, res: Result) -> None:
                 listed += 1
     res.analysed["explicit_raise_or_assert_sites_not_caught_locally"] = listed
     res.ok("R4.g", "pyrefact/", "package", "escape triage", f"{listed} explicit raise/assert statements are not caught locally (advisory list: feasibility of a raise is not a static fact)", trivial=True)
+
+
+# ------------------------------------------------------------------------------------------------ R4.w
+def _r4_w(prog: Program, res: Result) -> None:
+    """A byte string that was CUT (`text.encode()[:k]`, `data[a:b]`) can end in the middle of a multi-byte character; decoding it
+    strictly raises UnicodeDecodeError.  The cut position is an ast column, which falls on a character boundary for the line it
+    was computed for - but positions are also asked for lines the node was not parsed from (statements that are moved or
+    inserted take the line of another statement).  Obligation: every `.decode(..)` applied to a sliced bytes value passes an
+    `errors=` policy that cannot raise (ignore / replace / ...), or sits in a handler for UnicodeDecodeError."""
+    n = 0
+    for fn in prog.funcs.values():
+        for c in walk_own(fn.node):
+            if not (isinstance(c, ast.Call) and isinstance(c.func, ast.Attribute) and c.func.attr == "decode"):
+                continue
+            recv = c.func.value
+            if isinstance(recv, ast.Name):
+                from ..defuse import bindings as _b
+                vals = [v for _s, v in _b(fn).get(recv.id, []) if v is not None]
+                recv = vals[0] if len(vals) == 1 else recv
+            if not (isinstance(recv, ast.Subscript) and isinstance(recv.slice, ast.Slice)):
+                continue
+            n += 1
+            errors = next((k.value for k in c.keywords if k.arg == "errors"), c.args[1] if len(c.args) > 1 else None)
+            tolerant = isinstance(errors, ast.Constant) and errors.value in ("ignore", "replace", "backslashreplace", "surrogateescape", "surrogatepass", "namereplace", "xmlcharrefreplace")
+            handled = any(caught(c, fn, e) is not None for e in ("UnicodeDecodeError",))
+            ok = tolerant or handled
+            res.decide(ok, "R4.w", fn.loc(c), fn.fq, f"{short(c, 70)} # decoding a cut byte string",
+                       "cannot raise: " + ("errors policy " + repr(errors.value) if tolerant else "inside a handler for UnicodeDecodeError") if ok else
+                       "a byte prefix cut at a column is decoded strictly: when the column falls inside a multi-byte character (a position asked for a line the node was not "
+                       "parsed from - moved or inserted statements) UnicodeDecodeError escapes the formatter")
+    if n == 0:
+        res.undecided("R4.w", "pyrefact/", "package", "decoding of cut byte strings", "none found (core._get_charno is expected)")
 
 
 # ------------------------------------------------------------------------------------------------ R4.u
